@@ -174,7 +174,8 @@ def judge(res: Result, case, outs, partitions):
             lost = [e for e in emitted if e not in returned]
             dup = [e for e in set(returned) if returned.count(e) > 1]
             res.violation({"clause": "events_not_exactly_once_in_order",
-                           "how": "lost" if lost else ("duplicated" if dup else "reordered")}, pc,
+                           "how": "phantom" if any(e not in emitted for e in returned) else
+                           ("lost" if lost else ("duplicated" if dup else "reordered"))}, pc,
                           {"emitted": emitted, "returned": returned})
             return
         want_events = []
